@@ -9,6 +9,7 @@ import (
 	"github.com/trustbloc/sidetree-core-go/pkg/api/protocol"
 	"github.com/trustbloc/sidetree-core-go/pkg/api/txn"
 	"github.com/trustbloc/sidetree-core-go/pkg/versions/1_0/operationparser"
+	"github.com/trustbloc/sidetree-core-go/pkg/versions/1_0/txnprovider"
 
 	"verif/mc/fx"
 	"verif/mc/hx"
@@ -194,6 +195,21 @@ func c13RoundTrip(r *hx.Run, tag string, p protocol.Protocol, dids []*fx.DIDOps,
 			if !jsonEq(op.AnchorOrigin, d.Origin["R"]) {
 				fail("anchor-origin:recover", fmt.Sprintf("anchor origin %v, want %v", op.AnchorOrigin, d.Origin["R"]))
 			}
+		}
+	}
+	// the same files reachable only through an alternate source (every read of the primary CAS fails): the batch reads back all the same
+	{
+		alt := cas.Clone()
+		for ad, b := range alt.Data {
+			alt.Aliases["src:"+ad] = b
+		}
+		alt.FailR = func(_ int, addr string) bool { return !strings.HasPrefix(addr, "src:") }
+		verAlt := fx.NewVersion(p, &fx.VersionOpts{CAS: alt, ParserOpts: []operationparser.Option{operationparser.WithAnchorTimeValidator(expiryValidator{})},
+			ProviderOpts: []txnprovider.Opt{txnprovider.WithSourceCASURIFormatter(func(uri, source string) (string, error) { return source + ":" + uri, nil })}})
+		opsAlt, errAlt := verAlt.Provider.GetTxnOperations(&txn.SidetreeTxn{Namespace: ns, AnchorString: info.AnchorString, TransactionTime: 10, TransactionNumber: 1, AlternateSources: []string{"src"}})
+		r.Eval()
+		if errAlt != nil || string(mustJSON(opsAlt)) != string(mustJSON(ops)) {
+			fail("read-back-through-alternate-source", fmt.Sprintf("with the primary CAS failing and an alternate source serving every file: err=%v, same operations=%v", errAlt, errAlt == nil && string(mustJSON(opsAlt)) == string(mustJSON(ops))))
 		}
 	}
 	types := map[operation.Type]bool{}
